@@ -6,7 +6,6 @@ From Frugal.proofs Require Import GenDecParams GenDepth SkipPut Corollaries.
 From Frugal.props Require Import Examples.
 From Frugal Require Import DisciplineChecks.
 From Frugal.proofs Require Import GenPools GenDepthArgs.
-From Frugal.proofs Require Import GenDesc.
 Import ListNotations.
 
 (* any wire struct, whatever the field order, duplicates, unknown or retyped fields, whoever wrote
@@ -52,6 +51,3 @@ Proof. split; [exact dec_params_ok_holds | exact depth_ok_holds]. Qed.
 Theorem C03_model_assumptions : pools_ok = true /\ depth_args_ok = true.
 Proof. split; [exact pools_ok_holds | exact depth_args_ok_holds]. Qed.
 
-(* the descriptor construction of desc.go reads as the model assumes (DisciplineChecks.desc_ok) *)
-Theorem C03_descriptor_shape : desc_ok = true.
-Proof. exact desc_ok_holds. Qed.
